@@ -386,12 +386,16 @@ def rule_complete(ctx, tu):
         ctx.need(recs, R, "%s: FlagAsComplete() call not reached by the walk" % f.qual)
         for node, facts in recs:
             past = ("t_max < t", True) in facts
-            dead = ("a0 == 0", True) in facts or ("a0 <= 0", True) in facts or ("0 < a0", False) in facts
+            # the dead-state exit belongs to the exact engine only: a fixed-step engine performs its steps up to t_max whether or
+            # not anything can still happen (the documented step count, the requested records)
+            exact = f.cls is not None and f.cls.name.startswith("Gillespie")
+            dead = exact and (("a0 == 0", True) in facts or ("a0 <= 0", True) in facts or ("0 < a0", False) in facts)
             n += 1
             ctx.check(past or dead, R, node, f.qual, "FlagAsComplete() under %s" % ("t > t_max" if past else "a0 == 0" if dead
                       else sorted(str(a) for a, p_ in facts)[:3]), "past t_max, or nothing can happen any more",
-                      "the run is flagged complete where neither `t > t_max` nor `a0 == 0` is known: it ends before the first "
-                      "step beyond t_max (for instance as soon as the requested sample times are used up)")
+                      "the run is flagged complete where neither `t > t_max` nor (in the exact engine) `a0 == 0` is known: it ends "
+                      "before the first step beyond t_max (as soon as the requested sample times are used up, or, in a fixed-step "
+                      "engine, as soon as nothing can react)")
     ctx.need(n >= 4, R, "only %d FlagAsComplete() call sites found" % n)
     ctx.floor(R, 4)
 
